@@ -275,4 +275,85 @@ theorem default_member_falsy_witness (ms : List Member) (r : List Char) :
       defaultMember ms (.bool false) r = none := by
   simp [defaultMember, JVal.falsy]
 
+
+/-! ### the text of a default member across modules (`Parser.__set_default_enum_member`, whole run) -/
+
+/-- FULL STRENGTH: run `__set_default_enum_member` over ANY sequence of fields (all modules, any
+processing order, starting from any heap of `Member` objects) and render every default at the end, as
+`Parser.parse` does. The text of each default is `stepText` of ITS OWN field: a function of the alias
+`__change_from_import` gave the field's own data type (i.e. of the module the field lives in), of the
+enum and of the default — never of which other fields, in which other modules, were processed before or
+after it. (`Member` objects are allocated per lookup: an alias written for one field cannot reach another.) -/
+theorem default_text_depends_on_own_field_only (steps : List Step) :
+    ∀ (h rest : Heap),
+      ∃ tail, (runSteps h steps).1 = h ++ tail ∧
+        (runSteps h steps).2.map (renderOut ((runSteps h steps).1 ++ rest)) = steps.map stepText := by
+  induction steps with
+  | nil => intro h rest; exact ⟨[], by simp [runSteps], by simp [runSteps]⟩
+  | cons s ss ih =>
+    intro h rest
+    obtain ⟨tail, ht, hr⟩ := ih (h ++ stepCells s) rest
+    refine ⟨stepCells s ++ tail, ?_, ?_⟩
+    · simp only [runSteps, applyStep_closed, ht, List.append_assoc]
+    · simp only [runSteps, applyStep_closed, List.map_cons, List.cons.injEq]
+      refine ⟨?_, hr⟩
+      rw [ht]
+      have := render_closed h (tail ++ rest) s
+      simpa [List.append_assoc] using this
+
+/-- the statement as it is used: from the empty heap, rendering in the final heap -/
+theorem default_text_whole_run (steps : List Step) :
+    (runSteps [] steps).2.map (renderOut (runSteps [] steps).1) = steps.map stepText := by
+  obtain ⟨_, _, hr⟩ := default_text_depends_on_own_field_only steps [] []
+  simpa using hr
+
+/-- two runs that process the same field among DIFFERENT other fields (other modules before it, after it,
+in another order) print the same text for it -/
+theorem default_text_history_independent (pre₁ post₁ pre₂ post₂ : List Step) (s : Step) :
+    ((runSteps [] (pre₁ ++ s :: post₁)).2.map (renderOut (runSteps [] (pre₁ ++ s :: post₁)).1))[pre₁.length]? =
+    ((runSteps [] (pre₂ ++ s :: post₂)).2.map (renderOut (runSteps [] (pre₂ ++ s :: post₂)).1))[pre₂.length]? := by
+  rw [default_text_whole_run, default_text_whole_run]
+  simp
+
+/-- non-vacuity / the shape the seeded leak has: the same value is the default of a field of the defining
+module (no alias) and of a field of an importing module (alias `s.C`), in both processing orders: the
+defining module prints `C.r`, the importing one `s.C.r` -/
+example :
+    let ms : List Member := [(['r'], .lit ['\'', 'r', '\'']), (['g'], .lit ['\'', 'g', '\''])]
+    let own : Step := ⟨['C'], ms, none, .scalar (.str ['r']) ['\'', 'r', '\'']⟩
+    let imp : Step := ⟨['C'], ms, some ['s', '.', 'C'], .list [(.str ['r'], ['\'', 'r', '\'']), (.str ['g'], ['\'', 'g', '\''])]⟩
+    (runSteps [] [own, imp]).2.map (renderOut (runSteps [] [own, imp]).1) =
+      [.one ['C', '.', 'r'], .many [['s', '.', 'C', '.', 'r'], ['s', '.', 'C', '.', 'g']]] ∧
+    (runSteps [] [imp, own]).2.map (renderOut (runSteps [] [imp, own]).1) =
+      [.many [['s', '.', 'C', '.', 'r'], ['s', '.', 'C', '.', 'g']], .one ['C', '.', 'r']] := by
+  decide +kernel
+
+/-- FULL STATEMENT for the module that defines the enum (false, see `defining_module_dotted_witness`): a field
+of the defining module (`data_type.alias` is None there) refers to the member through the class name that
+module binds -/
+def DefiningModuleText (s : Step) : Prop :=
+  s.dtAlias = none → ∀ n ∈ foundNames s, memberText s n = shortName s.enumName ++ '.' :: n
+
+/-- PARTIAL: it holds when the definition name of the enum carries no module (no dot) -/
+theorem defining_module_text_partial (s : Step) (hyp : '.' ∉ s.enumName) : DefiningModuleText s := by
+  intro ha n _
+  have hs : shortName s.enumName = s.enumName := by
+    unfold shortName
+    have : s.enumName.reverse.takeWhile (· != '.') = s.enumName.reverse := by
+      apply takeWhile_eq_self
+      intro c hc
+      simp only [bne_iff_ne, ne_eq]
+      intro h; subst h; exact hyp (List.mem_reverse.mp hc)
+    rw [this, List.reverse_reverse]
+  simp [memberText, ha, aliasOr, hs]
+
+/-- REFUTATION (known finding C09-F1): for a definition named `s.C` the defining module `s` binds `C`, but
+the default is printed as `s.C.r` -/
+theorem defining_module_dotted_witness :
+    ¬ DefiningModuleText ⟨['s', '.', 'C'], [(['r'], .lit ['\'', 'r', '\''])], none, .scalar (.str ['r']) ['\'', 'r', '\'']⟩ := by
+  intro h
+  have := h rfl ['r'] (by decide)
+  revert this
+  decide
+
 end Dcg.Props.C09
